@@ -77,6 +77,24 @@ def build_case(c, rng):
             else:
                 cs = {'kind': 'time', 'name': name, 'time': ps + off, 'target': tgt, 'attr': 'status', 'value': 'CLOSED'}
             spec['controls'].append(cs)
+    # a whole zone (with a booster pump or a valve inside, when there is one) cut off from every source and re-connected in the
+    # first hydraulic step after a pause: whatever isolation bookkeeping the paused run leaves on the model meets a new simulator.
+    # Side stream seeded by the content, so that the rest of the corpus stays what it was.
+    import json as _json
+    import random as _random
+    import zlib as _zlib
+    side = _random.Random(_zlib.crc32(_json.dumps(spec, sort_keys=True, default=str).encode()))
+    if nsteps >= 3 and side.random() < 0.4:
+        z = gnet.add_zone_isolation(spec, side)
+        if z is not None:
+            marks = set(spec.get('pauses') or [])
+            if z['open'] is not None and side.random() < 0.8:
+                marks.add(hyd * ((z['open'] + hyd - 1) // hyd) - hyd)       # the zone comes back inside the first continued step
+            if side.random() < 0.4:
+                marks.add(hyd * (z['close'] // hyd + 1))                      # paused while the zone is cut off
+            marks = sorted(m_ for m_ in marks if 0 <= m_ < o['duration'])[:3]
+            if marks:
+                spec['pauses'] = marks
     return (lambda: gnet.build(spec)), {'spec': spec}, (gnet.signature(spec),), bool(spec['tanks']), spec
 
 
@@ -104,6 +122,10 @@ def run_case(c, rng):
     if spec is not None and spec.get('pauses'):
         pauses = list(spec['pauses'])
         c.count('near_pause_schedule_cases')
+        if spec.get('zone_isolation'):
+            c.count('zone_isolation_cases')
+            if any(nm.startswith('PU') for nm in spec['zone_isolation']['links']):
+                c.count('zone_isolation_with_pump_cases')
     else:
         npause = rng.randint(1, min(3, nsteps - 1)) if nsteps > 1 else 1
         pauses = sorted(rng.sample(range(0, nsteps), npause))
